@@ -2,6 +2,7 @@
 import datetime
 import itertools
 import math
+import re
 import struct
 import warnings
 
@@ -20,7 +21,8 @@ def uncps(a):
     return "".join(chr(x) for x in a)
 
 
-SPECIAL = ["\\", "@", "s", "n", "\n", "\r", "a", " ", "\\\\", "\\s", "\\n", "@@", "é", " ", "\U0001F600", "x"]
+SPECIAL = ["\\", "@", "s", "n", "\n", "\r", "a", " ", "\\\\", "\\s", "\\n", "@@", "é", " ", "\U0001F600", "x",
+           "\x1f", "\x1c", "\x85", "\x00"]
 DATE_ALPHA = "0123456789-: ()abcdefgjlmnoprstuvyJSDX"
 
 
@@ -216,19 +218,189 @@ def gen_row(rng):
     return {"kind": "row", "op": "row", "types": types, "names": [cps(x) for x in names], "vals": vals, "q": q}
 
 
+CODED = {"i-wf": "1", "i-difficulty": "1", "polarity": "-1"}   # the documented coded attributes, restated
+FIELD_NAMES = ["i-id", "i-input", "i-date", "i-wf", "i-difficulty", "polarity", "a", "b"]
+DTYPES = [":integer", ":string", ":date"]
+
+
+def jfields(fields):
+    return [{"name": cps(n), "dt": t} for n, t in fields]
+
+
+def gen_fitting(rng, t):
+    if t == ":integer":
+        return {"int": str(gen_int(rng))}
+    if t == ":string":
+        return {"str": cps(gen_string(rng, 5))}
+    return {"date": gen_dt(rng)}
+
+
+def gen_typed(rng):
+    """typed join / split: column counts right and wrong, None in every datatype with and without a coded
+    default, values whose Python type does not fit the column, the empty field list (untyped branch)."""
+    n = rng.choice([0, 1, 1, 2, 3, 3, 4, 5])
+    fields = [(rng.choice(FIELD_NAMES), rng.choice(DTYPES)) for _ in range(n)]
+    m = n if rng.random() < 0.75 else max(0, n + rng.choice([-2, -1, 1, 2]))
+    vals = []
+    for i in range(m):
+        t = fields[i][1] if i < n else rng.choice(DTYPES)
+        r = rng.random()
+        if r < 0.25:
+            vals.append(None)
+        elif r < 0.9:
+            vals.append(gen_fitting(rng, t))
+        else:
+            vals.append(gen_fitting(rng, rng.choice(DTYPES)))
+    if rng.random() < 0.5:
+        return {"kind": "tjoin", "op": "tjoin", "fields": jfields(fields), "vals": vals}
+    # a line: the encoding of such values (possibly another column count), sometimes damaged, sometimes arbitrary
+    r = rng.random()
+    if r < 0.6:
+        cols = []
+        for i, v in enumerate(vals):
+            pv = py_val(v)
+            if pv is None:
+                cols.append(rng.choice(["", "-1", "1"]))
+            elif isinstance(pv, datetime.datetime):
+                cols.append(tsdb.format(":date", pv))
+            else:
+                cols.append(tsdb.escape(str(pv)))
+        line = "@".join(cols)
+        if rng.random() < 0.3 and line:
+            i = rng.randrange(len(line))
+            line = line[:i] + rng.choice(["@", "\\", "\\x", "", "1", "\x1f", " "]) + line[i + 1:]
+    elif r < 0.8:
+        cols = []
+        for i in range(m):
+            cols.append(rng.choice(["", "", "1", "-1", "1_0", " 7", "x", "\\s", "1-2-2003", "apr-95 10:51", "2002-06",
+                                    "32-1-2000", "1-foo-2000", "\x1f", "today"]) if rng.random() < 0.7
+                        else tsdb.escape(gen_string(rng, 4)))
+        line = "@".join(cols)
+    else:
+        line = gen_string(rng, 8)
+    line += rng.choice(["", "", "\n"])
+    return {"kind": "tsplit", "op": "tsplit", "fields": jfields(fields), "s": cps(line)}
+
+
+def fixed_cases():
+    """batteries that are in every run (inputs on which seeded changes were missed at first)."""
+    out = []
+    bs = "\\"
+    # unescape: runs of backslashes at the end (odd >= 3 = invalid, even = valid), backslash before a raw newline
+    for pre in ("", "a", "s", "n", "@", "\\s"):
+        for k in (1, 2, 3, 4, 5, 6, 7, 9):
+            out.append({"kind": "unescape", "op": "unescape", "s": cps(pre + bs * k)})
+            out.append({"kind": "split", "op": "split", "s": cps(pre + bs * k)})
+            out.append({"kind": "split", "op": "split", "s": cps(pre + bs * k + "\n")})
+    for t in ("a\\\nb", "\\\n", "\\\nx", "ab\\\n\\n", "\\\n\\\n", "x\\\n@y", "\\\\\n", "\\\\\\\nz", "\\\r", "\\\x1f"):
+        out.append({"kind": "unescape", "op": "unescape", "s": cps(t)})
+        out.append({"kind": "split", "op": "split", "s": cps(t)})
+        out.append({"kind": "escape", "op": "escape", "s": cps(t)})
+    # U+001F (and its neighbours) inside values, through every operation
+    for t in ("\x1f", "a\x1fb", "\x1f@", "\\\x1f", "\x1c\x1d\x1e\x1f", "\x1f\n", "1\x1f", "\x1f1"):
+        out.append({"kind": "escape", "op": "escape", "s": cps(t)})
+        out.append({"kind": "unescape", "op": "unescape", "s": cps(t)})
+        out.append({"kind": "split", "op": "split", "s": cps(t)})
+        out.append({"kind": "join", "op": "join", "vs": [cps(t), None, cps(t)]})
+        out.append({"kind": "str", "op": "format", "dt": ":string", "v": {"str": cps(t)}})
+        out.append({"kind": "castint", "op": "cast", "dt": ":integer", "s": cps(t)})
+        out.append({"kind": "castdate", "op": "cast", "dt": ":date", "s": cps(t)})
+        out.append({"kind": "tjoin", "op": "tjoin", "fields": jfields([("a", ":string"), ("i-id", ":integer")]),
+                    "vals": [{"str": cps(t)}, None]})
+        out.append({"kind": "tsplit", "op": "tsplit", "fields": jfields([("a", ":string"), ("i-id", ":integer")]),
+                    "s": cps(t + "@5")})
+    # int() spellings
+    for t in ("1_0", "1__0", "_1", "1_", "+1_0", "0_7", "1_000_000", "-_1", "+_1", "1_a", " 1", "1 ", "\t1\n", " -1_2 ",
+              "\x1f1", "1\x1f", "\x1c1", "- 1", "+-1", "--1", "1\x0b", "\x0c1", "\r1\r", " ", "\n", "+", "-", " + 1",
+              "1 2", "0x10", "-0", "+0", "007", "-007", "1\x00", "\x001", "1.0", "1e3", "a", "٣", "\xa01", "1 ",
+              "१_२", "1\x85", "９"):
+        out.append({"kind": "castint", "op": "cast", "dt": ":integer", "s": cps(t)})
+    # dates: day-less numeric months, \s separators, today/now, nothing matching, trailing text
+    for text, inst in (("6-2002", [2002, 6, 1, 0, 0, 0]), ("06-2002", [2002, 6, 1, 0, 0, 0]),
+                       ("2002-06", [2002, 6, 1, 0, 0, 0]), ("2002-6", [2002, 6, 1, 0, 0, 0]),
+                       ("4-95 10:51", [1995, 4, 1, 10, 51, 0]), ("4-95", [1995, 4, 1, 0, 0, 0]),
+                       ("12-02", [2002, 12, 1, 0, 0, 0]), ("10-12", [2012, 10, 1, 0, 0, 0]),
+                       ("2002-06 10:51:09", [2002, 6, 1, 10, 51, 9]), ("6-2002 (10:51)", [2002, 6, 1, 10, 51, 0]),
+                       ("04-1995  (10:51:09)", [1995, 4, 1, 10, 51, 9]), ("2002-12 (23:59)", [2002, 12, 1, 23, 59, 0]),
+                       ("1-1-2001 00:00:05", [2001, 1, 1, 0, 0, 5]), ("1-jan-2001 00:07:00", [2001, 1, 1, 0, 7, 0]),
+                       ("10-6-2002", [2002, 6, 10, 0, 0, 0]), ("8-sep-1999", [1999, 9, 8, 0, 0, 0]),
+                       ("apr-95", [1995, 4, 1, 0, 0, 0]), ("01-dec-02 (15:31:01)", [2002, 12, 1, 15, 31, 1]),
+                       ("2008-10-12 10:51", [2008, 10, 12, 10, 51, 0])):
+        out.append({"kind": "spelling", "op": "cast", "dt": ":date", "s": cps(text), "denotes": inst})
+    for t in ("1-2-2003\x1f10:51", "2003-1-2\x1c(10:51:02)", "1-2-2003\x1d\x1e 10:51", "1-2-2003\t\n\r\x0b\x0c10:51",
+              "1-2-2003\x8510:51", "1-2-2003\xa010:51", "today", ":today", "now", ":now x", "now-95", "today-12-2002",
+              "tod", "1", "x", "-", "2003", "2003-", "1-2-2003xyz", "1-2-20034", "1-2-200", "1-2-3", "31-2-2003",
+              "1-13-2003", "1-foo-2003", "1-2-2003 24:00", "1-2-2003 10:60", "1-2-2003 10:51:60", "1-2-2003 1:51",
+              "0-1-2003", "1-0-2003", "29-2-1900", "29-2-2000", "1-2-0000", "0000-1-1", "1-2-93", "1-2-92"):
+        out.append({"kind": "castdate", "op": "cast", "dt": ":date", "s": cps(t)})
+    # datetimes whose time is 00:00:SS / 00:MM:00 / HH:00:00 (only (0,0,0) drops the time part)
+    for hms in ((0, 0, 1), (0, 0, 59), (0, 1, 0), (0, 59, 0), (1, 0, 0), (23, 0, 0), (0, 0, 0), (0, 59, 59)):
+        for ymd in ((2001, 1, 1), (1999, 12, 31)):
+            out.append({"kind": "date", "op": "format", "dt": ":date", "v": {"date": list(ymd) + list(hms)}})
+    # rows: negative / reversed slices, None and '' in :string (and the other) columns by every access path
+    types = [":integer", ":string", ":date", ":string", ":string"]
+    names = ["i-id", "i-input", "i-date", "i-input", "b"]       # a repeated name: the last one wins
+    for vals in ([{"int": "7"}, {"str": cps("x@y")}, {"date": [2001, 1, 1, 0, 0, 5]}, {"str": cps("\x1f")},
+                  {"str": cps("z")}],
+                 [None, None, None, None, None],
+                 [{"int": "-1"}, {"str": []}, None, {"str": []}, None],
+                 [None, {"str": cps("a")}, {"date": [1999, 9, 8, 0, 0, 0]}, None, {"str": []}]):
+        qs = [{"kind": "iter"}, {"kind": "data"}]
+        qs += [{"kind": "idx", "i": i} for i in range(-7, 7)]
+        qs += [{"kind": "name", "k": cps(k)} for k in ("i-id", "i-input", "i-date", "b", "zz", "")]
+        for start in (None, -6, -5, -2, -1, 0, 2, 5):
+            for stop in (None, -6, -3, -1, 0, 3, 6):
+                for step in (None, 1, 2, -1, -2, -5):
+                    qs.append({"kind": "slice", "start": start, "stop": stop, "step": step})
+        qs.append({"kind": "slice", "start": None, "stop": None, "step": 0})
+        for q in qs:
+            out.append({"kind": "row", "op": "row", "types": types, "names": [cps(x) for x in names], "vals": vals,
+                        "q": q})
+    # typed join / split: every datatype x {None, fitting value} x {plain name, coded name}; wrong column counts
+    for name in ("a", "i-wf", "i-difficulty", "polarity"):
+        for t in DTYPES:
+            f = [(name, t)]
+            fit = {":integer": {"int": "5"}, ":string": {"str": cps("v@\n\\")},
+                   ":date": {"date": [2001, 1, 1, 0, 0, 5]}}[t]
+            for vals in ([None], [fit], [{"str": []}], [], [None, None], [fit, fit]):
+                out.append({"kind": "tjoin", "op": "tjoin", "fields": jfields(f), "vals": vals})
+            for line in ("", "\n", "5", "x", "-1", "1", "@", "5@", "@@", "1-1-2001", "\\", "\\x@", "a@b@c"):
+                out.append({"kind": "tsplit", "op": "tsplit", "fields": jfields(f), "s": cps(line)})
+    f3 = [("i-id", ":integer"), ("i-input", ":string"), ("i-date", ":date")]
+    for vals in ([{"int": "1"}, {"str": cps("a")}, {"date": [2001, 1, 1, 0, 0, 0]}], [None, None, None],
+                 [{"int": "1"}, {"str": cps("a")}], [{"int": "1"}, {"str": cps("a")}, None, None], [],
+                 [{"str": cps("a")}, {"int": "1"}, {"int": "3"}], [{"date": [2001, 1, 1, 1, 2, 3]}] * 3):
+        out.append({"kind": "tjoin", "op": "tjoin", "fields": jfields(f3), "vals": vals})
+        out.append({"kind": "tjoin", "op": "tjoin", "fields": [], "vals": vals})
+    for line in ("1@a@1-1-2001", "1@a@1-1-2001\n", "@@", "@@\n", "1@a", "1@a@1-1-2001@", "x@a@b", "1@a@32-1-2001",
+                 "1@a@1-foo-2001", "x@\\x@", "\\@@", "1_0@ @2001-06", "", "\n", "\n\n", "1@a@b\n\n"):
+        out.append({"kind": "tsplit", "op": "tsplit", "fields": jfields(f3), "s": cps(line)})
+        out.append({"kind": "tsplit", "op": "tsplit", "fields": [], "s": cps(line)})
+    return out
+
+
 class C08(Check):
     pid = "C08"
     quick_cases = 6000
     thorough_cases = 150000
-    rule = ("strings over an alphabet weighted towards \\ @ s n LF CR plus arbitrary Unicode (exhaustive over "
-            "{\\,@,s,n,LF,a} up to length 4 quick / 5 thorough); records of 1-6 values or None; integers incl. "
-            "huge/negative; finite floats from random bit patterns; date-times 1000-9999 in every documented "
-            "spelling; rows addressed by index, slice, name, iteration. A case is non-trivial if its input is "
+    rule = ("fixed batteries in every run (backslash runs 1-9 at the end of a value, backslash before a raw newline, "
+            "U+001C-001F inside values through every operation, int() spellings with blanks/underscores/signs, "
+            "day-less numeric-month dates, \\s separators, today/now, times 00:00:SS, rows with a repeated name and "
+            "None/'' in every column by every index -7..6, every name, 337 slices incl. negative and reversed, "
+            "iteration; typed join/split for every datatype x {None, fitting, ''} x {plain, coded-attribute name} and "
+            "wrong column counts); then strings over an alphabet weighted towards \\ @ s n LF CR U+001F NEL NUL plus "
+            "arbitrary Unicode (exhaustive over {\\,@,s,n,LF,a} up to length 4 quick / 5 thorough); records of 1-6 "
+            "values or None; integers incl. huge/negative; int() texts over digits _ + - blank TAB LF VT U+001F a NBSP; "
+            "finite floats from random bit patterns; date-times 1000-9999 in every documented spelling (the proved "
+            "family of Spelling.lean); typed records of 0-5 fields with right/wrong counts and fitting/non-fitting "
+            "values; rows addressed by index, slice, name, iteration. A case is non-trivial if its input is "
             "non-empty; distinct by its JSON text.")
     assumptions = [
         "float clause is decided by the direct oracle only (CPython repr is not modelled)",
-        "castInt models [+-]?[0-9]+; other int() spellings are answered 'unmodelled' and not compared",
-        "date fields in generated cases are ASCII (\\w, \\s, \\d of the regexes on non-ASCII input are not modelled)",
+        "int() and date casts of text containing a non-ASCII character (Unicode blanks/digits, \\w \\s \\d of the "
+        "regexes) and dates starting with today/now are answered 'unmodelled' and not compared: counted in "
+        "coverage.tie as unmodelled:<kind>",
+        ":float columns are not part of the typed split/join model",
     ]
     trusted_base = ["hand-written model lean/Verif/C08/Model.lean, tied to delphin.tsdb/itsdb by the correspondence run",
                     "generated tables tsdbEscapes, fieldDelimiter, monthNames, monthNumbers read from the live module"]
@@ -262,6 +434,7 @@ class C08(Check):
         ]
 
     def cases(self, rng, tier, n):
+        yield from fixed_cases()
         L = 4 if tier == "quick" else 5
         alpha = ["\\", "@", "s", "n", "\n", "a"]
         exh = []
@@ -275,7 +448,8 @@ class C08(Check):
             yield {"kind": "split", "op": "split", "s": cps(s)}
         # every documented spelling of the boundary instants and of a few random ones
         instants = [[1993, 1, 1, 0, 0, 0], [2092, 12, 31, 23, 59, 59], [2000, 2, 29, 12, 0, 0],
-                    [1999, 9, 8, 7, 5, 9], [1000, 10, 10, 10, 10, 10], [9999, 12, 31, 0, 0, 1]]
+                    [1999, 9, 8, 7, 5, 9], [1000, 10, 10, 10, 10, 10], [9999, 12, 31, 0, 0, 1],
+                    [2001, 6, 1, 0, 0, 5]]
         instants += [gen_dt(rng) for _ in range(3 if tier == "quick" else 40)]
         for dt in instants:
             for text, inst in spellings(dt, rng):
@@ -285,7 +459,8 @@ class C08(Check):
     def random_cases(self, rng, n, kinds=None):
         bounds = {"escape": (0, .12), "unescape": (.12, .24), "split": (.24, .34), "join": (.34, .5),
                   "int": (.5, .58), "castint": (.58, .64), "float": (.64, .70), "date": (.70, .78),
-                  "castdate": (.78, .86), "str": (.86, .90), "row": (.90, 1.0)}
+                  "castdate": (.78, .86), "str": (.86, .89), "row": (.89, .95),
+                  "typed": (.95, 1.0)}
         for _ in range(n):
             r = rng.random()
             if kinds:
@@ -306,7 +481,9 @@ class C08(Check):
                 yield {"kind": "int", "op": "format", "dt": ":integer", "v": {"int": str(gen_int(rng))}}
             elif r < 0.64:
                 s = rng.choice(["", "+", "-", "+5", "-0", "007", "1_0", " 1", "1 ", "a", "1a", "--1", "٣", "1.0", "1e3"]
-                               + [str(gen_int(rng))])
+                               + [str(gen_int(rng))] * 3
+                               + ["".join(rng.choice("0123456789012_+- \t\n\x0b\x1fa\xa0")
+                                          for _ in range(rng.randrange(1, 7)))] * 6)
                 yield {"kind": "castint", "op": "cast", "dt": ":integer", "s": cps(s)}
             elif r < 0.70:
                 yield {"kind": "float", "v": {"float": struct.unpack("<Q", struct.pack("<d", gen_float(rng)))[0]}}
@@ -327,18 +504,24 @@ class C08(Check):
                         elif t:
                             del t[min(i, len(t) - 1)]
                     text = "".join(t)
+                    if rng.random() < 0.1:
+                        text = text.replace(" ", rng.choice(["\x1f", "\t", "\x1c ", "\n", "\x85"]))
                 else:
                     text = "".join(rng.choice(DATE_ALPHA) for _ in range(rng.randrange(1, 14)))
                 yield {"kind": "castdate", "op": "cast", "dt": ":date", "s": cps(text)}
-            elif r < 0.90:
+            elif r < 0.89:
                 yield {"kind": "str", "op": "format", "dt": ":string", "v": {"str": cps(gen_string(rng, 8))}}
-            else:
+            elif r < 0.95:
                 yield gen_row(rng)
+            else:
+                yield gen_typed(rng)
 
     def search_cases(self, rng, tier, n, seeds):
         kinds = sorted({c["kind"] for c in seeds if c["kind"] in
                         ("escape", "unescape", "split", "join", "int", "castint", "float", "date", "castdate",
                          "str", "row")})
+        if any(c["kind"] in ("tjoin", "tsplit") for c in seeds):
+            kinds = sorted(set(kinds) | {"typed", "join", "split"})
         if any(c["kind"] in ("castdate", "spelling", "date") for c in seeds):
             kinds = sorted(set(kinds) | {"date", "castdate"})
             for y in (1992, 1993, 1994, 2091, 2092, 2093, 2000, 1900, 1000, 9999):
@@ -368,7 +551,32 @@ class C08(Check):
         if k in ("int", "date", "str"):
             return cps(tsdb.format(case["dt"], py_val(case["v"])))
         if k in ("castint", "castdate", "spelling"):
-            return do_cast(case["dt"], uncps(case["s"]))
+            r = do_cast(case["dt"], uncps(case["s"]))
+            if case["dt"] == ":date" and re.match(r":?(today|now)", uncps(case["s"])) and isinstance(r, dict) \
+                    and "date" in r:
+                return {"now": True}      # the current time: not a function of the input
+            return r
+        if k == "tjoin":
+            fields = [tsdb.Field(uncps(f["name"]), f["dt"]) for f in case["fields"]]
+            try:
+                return {"ok": cps(tsdb.join([py_val(v) for v in case["vals"]], fields))}
+            except tsdb.TSDBError:
+                return {"err": "TSDBError"}
+        if k == "tsplit":
+            fields = [tsdb.Field(uncps(f["name"]), f["dt"]) for f in case["fields"]]
+            try:
+                with warnings.catch_warnings():
+                    warnings.simplefilter("ignore")
+                    rec = tsdb.split(uncps(case["s"]), fields)
+                if any(isinstance(x, datetime.datetime) and x.microsecond for x in rec):
+                    return {"now": True}
+                return {"ok": [j_val(x) for x in rec]}
+            except tsdb.TSDBError:
+                return {"err": "TSDBError"}
+            except ValueError:
+                return {"err": "ValueError"}
+            except KeyError:
+                return {"err": "KeyError"}
         if k == "float":
             x = py_val(case["v"])
             return cps(tsdb.format(":float", x))
@@ -400,17 +608,39 @@ class C08(Check):
                 return jc(lambda: [j_val(x) for x in row[slice(q["start"], q["stop"], q["step"])]])
         raise ValueError(k)
 
+    def setup(self):
+        self.tie = {}
+
+    def _count(self, key):
+        self.tie[key] = self.tie.get(key, 0) + 1
+
     def model_request(self, case):
         if case["kind"] == "float":
+            self._count("no-request:float")
             return None
         return {k: v for k, v in case.items() if k not in ("kind", "denotes")}
 
     def model_compare(self, case, expected, answer):
-        if isinstance(answer, dict) and answer.get("err") == "unmodelled":
+        kind = case["kind"] + (":" + case["q"]["kind"] if case["kind"] == "row" else "")
+        unmod = (isinstance(answer, dict) and answer.get("err") == "unmodelled") or \
+                (isinstance(answer, list) and any(isinstance(a, dict) and a.get("err") == "unmodelled" for a in answer))
+        if unmod:
+            # the model declines: counted per kind together with what the implementation did there
+            self._count("unmodelled:" + kind)
+            what = expected.get("err", "value") if isinstance(expected, dict) and "err" in expected else \
+                ("now" if isinstance(expected, dict) and "now" in expected else "value")
+            self._count("unmodelled:%s:impl=%s" % (kind, what))
             return None
-        if isinstance(answer, list) and any(isinstance(a, dict) and a.get("err") == "unmodelled" for a in answer):
-            return None
+        self._count("compared")
+        self._count("compared:" + kind)
         return super().model_compare(case, expected, answer)
+
+    def extra_evidence(self):
+        tie = dict(sorted(getattr(self, "tie", {}).items()))
+        return {"tie": tie,
+                "tie_note": "compared = model answer compared with the implementation's; unmodelled:<kind> = the model "
+                            "answered 'unmodelled' (non-ASCII text in int()/date casts, today/now) and nothing was "
+                            "compared; no-request:<kind> = no model request exists (float: direct oracle only)"}
 
     # ---- direct oracle
     def oracle(self, case, res):
@@ -486,6 +716,53 @@ class C08(Check):
             if res != want:
                 fail("a documented date spelling does not denote its instant",
                      repr((uncps(case["s"]), case["denotes"], res)))
+        elif k == "tjoin":
+            fields = [(uncps(f["name"]), f["dt"]) for f in case["fields"]]
+            vals = [py_val(v) for v in case["vals"]]
+            if fields and len(vals) != len(fields):
+                if res != {"err": "TSDBError"}:
+                    fail("typed join accepts a wrong number of values", repr((fields, vals, res)))
+            elif "ok" not in res:
+                fail("typed join rejects a record with the right number of values", repr((fields, vals, res)))
+            else:
+                line = uncps(res["ok"])
+                if "\n" in line:
+                    fail("joined line contains a raw newline", repr(line))
+                if vals and line.count("@") != len(vals) - 1:
+                    fail("joined line does not have exactly one delimiter per column boundary", repr((vals, line)))
+                fits = all(v is None or (t == ":integer" and type(v) is int) or (t == ":string" and type(v) is str)
+                           or (t == ":date" and isinstance(v, datetime.datetime)) for (_, t), v in zip(fields, vals))
+                if fields and fits:
+                    want = []
+                    for (name, t), v in zip(fields, vals):
+                        if v is None:
+                            d = CODED.get(name, "-1" if t == ":integer" else "")
+                            want.append(int(d) if t == ":integer" else (d or None) if t == ":string" else None)
+                        else:
+                            want.append(None if v == "" else v)
+                    tf = [tsdb.Field(a_, b_) for a_, b_ in fields]
+                    for suffix in ("", "\n"):
+                        try:
+                            with warnings.catch_warnings():
+                                warnings.simplefilter("ignore")
+                                got = tsdb.split(line + suffix, tf)
+                        except Exception as ex:
+                            fail("typed split(join(vals)) raises", repr((fields, vals, line, type(ex).__name__)))
+                            continue
+                        if list(got) != want or [type(x) for x in got] != [type(x) for x in want]:
+                            fail("typed split(join(vals)) != vals up to the default for None",
+                                 repr((fields, vals, line, got, want)))
+        elif k == "tsplit":
+            fields = case["fields"]
+            line = uncps(case["s"])
+            cols = line.rstrip("\n").split("@")
+            if all(well_escaped(c) for c in cols):
+                if fields and len(cols) != len(fields) and res != {"err": "TSDBError"}:
+                    fail("typed split accepts a wrong number of columns", repr((fields, line, res)))
+                if not fields and "ok" not in res:
+                    fail("untyped split rejects a well-escaped line", repr((line, res)))
+            elif res != {"err": "TSDBError"}:
+                fail("typed split accepts a malformed escape", repr((line, res)))
         elif k == "row":
             # the row exposes exactly the cast of its stored raw data
             fields = [tsdb.Field(uncps(nm), t) for nm, t in zip(case["names"], case["types"])]
